@@ -1,25 +1,32 @@
 (** C01 — the query core: an executable token-level model of the SELECT / query skeleton of
     sqlparser-rs:
       printer  [qtoks]       = the tokens [impl Display for Query / With / Cte / SetExpr / Select /
-                               SelectItem / TableWithJoins / Join / TableFactor / TableAlias /
-                               OrderByExpr / Offset] (src/ast/query.rs) print for the fragment (canonical
+                               SelectItem / TableWithJoins / Join / TableFactor / TableAlias / Values /
+                               Table / OrderByExpr / Offset] (src/ast/query.rs) and, for subqueries,
+                               [Expr::Subquery / InSubquery / Exists] print for the fragment (canonical
                                keyword spelling: [AS] before every alias, NATURAL in front of the join
                                keywords, no INNER, no OUTER, [USING(..)]);
       parser   [parse_query] = [Parser::parse_query] with its WITH branch and [parse_cte],
-                               [parse_query_body] / [parse_remaining_set_exprs], [parse_select],
-                               [parse_projection] / [parse_select_item], [parse_table_and_joins] (the join
-                               loop: [INNER] JOIN, LEFT / RIGHT / FULL [OUTER] JOIN, CROSS JOIN, NATURAL,
+                               [parse_query_body] (SELECT, a parenthesised query, VALUES, TABLE) /
+                               [parse_remaining_set_exprs], [parse_select], [parse_projection] /
+                               [parse_select_item], [parse_table_and_joins] (the join loop: [INNER] JOIN,
+                               LEFT / RIGHT / FULL [OUTER] JOIN, CROSS JOIN, NATURAL,
                                [parse_join_constraint]: ON / USING / none), [parse_table_factor] (tables,
                                derived tables, nested joins: maybe_parse(derived table) and the fallback to
                                a parenthesised join), [parse_optional_alias] with the
                                RESERVED_FOR_COLUMN_ALIAS / RESERVED_FOR_TABLE_ALIAS rule,
                                [parse_parenthesized_column_list], [parse_comma_separated],
                                [parse_optional_group_by], [parse_optional_order_by], the LIMIT / OFFSET
-                               loop (src/parser/mod.rs).
+                               loop, [parse_values], [parse_as_table] (src/parser/mod.rs).
     Expressions are the operator core of Pratt.v, parsed by [Pratt.parse_expr] (binding power
-    [prec_unknown]).  Everything dialect specific is a field of [qdialect], regenerated from the
-    running crate (coq/gen/QueryTables.v).  Anything outside the fragment makes the model return
-    [OutOfFragment] (never a guess).  Model only; the theorems are in QueryCoreProofs.v. *)
+    [prec_unknown]) on a view of the token stream ([fold]) in which every subquery - [( query )] in
+    operand position (Expr::Subquery; [try_parse_expr_sub_query]), after IN ([parse_in]: InSubquery), after
+    ANY / ALL / SOME, [EXISTS ( query )] and [NOT EXISTS ( query )] ([parse_exists_expr], [parse_not]) - has
+    been read by [parse_query] one level down and replaced by an atom; the tree of an expression is the
+    operator-core tree over these atoms plus the list of its subqueries ([xexpr]).
+    Everything dialect specific is a field of [qdialect], regenerated from the running crate
+    (coq/gen/QueryTables.v).  Anything outside the fragment makes the model return [OutOfFragment]
+    (never a guess).  Model only; the theorems are in QueryCoreProofs.v. *)
 From SqlV Require Import Base PrecSpec Pratt SetOps PrinterCore.
 
 (** * Tokens: the expression alphabet of PrecSpec plus the query keywords *)
@@ -27,7 +34,7 @@ Inductive qkw :=
   KSelect | KWhere | KGroup | KBy | KHaving | KOrder | KAsc | KDesc | KLimit | KOffset | KAs
 | KUnion | KExcept | KIntersect
 | KJoin | KInner | KLeft | KRight | KFull | KOuter | KCross | KNatural | KOn | KUsing
-| KWith | KRecursive.
+| KWith | KRecursive | KExists | KValues | KTable.
 
 Inductive qtok :=
 | QE (t : tok)      (* a token of the expression alphabet: identifiers / numbers / strings, operators
@@ -61,33 +68,46 @@ Definition is_word (t : qtok) : bool :=
   | _ => false
   end.
 
-(** * Trees *)
-Inductive item :=
-| IWild                                  (* SelectItem::Wildcard without options *)
-| IExpr (e : expr)                       (* SelectItem::UnnamedExpr *)
-| IAlias (e : expr) (a : qtok).          (* SelectItem::ExprWithAlias; the alias is its word token *)
+(** atoms [TAtom false n] with [n >= SQ_BASE] are not tokens: inside an expression tree they stand for
+    the subqueries of the expression, numbered from the left: [SQ_BASE + i] (inside parentheses) for
+    the i-th [query], [EX_BASE + i] for [EXISTS (query)], [NEX_BASE + i] for [NOT EXISTS (query)] *)
+Definition SQ_BASE := 1000000.
+Definition EX_BASE := 2000000.
+Definition NEX_BASE := 3000000.
 
-(** [JoinOperator] / [JoinConstraint]: Inner | LeftOuter | RightOuter | FullOuter with a constraint,
-    CrossJoin without *)
+(** * Trees *)
+(** [JoinOperator]: Inner | LeftOuter | RightOuter | FullOuter with a [JoinConstraint], CrossJoin without *)
 Inductive jkind := JInner | JLeft | JRight | JFull.
-Inductive jcons := JOn (e : expr) | JUsing (cols : list qtok) | JNatural | JNone.
-Inductive jop := JCross | JOp (k : jkind) (c : jcons).
 
 Inductive setexpr :=
-| BSelect (distinct : bool) (items : list item) (from : list twj) (selection : option expr)
-          (group_by : list expr) (having : option expr)
+| BSelect (distinct : bool) (items : list item) (from : list twj) (selection : option xexpr)
+          (group_by : list xexpr) (having : option xexpr)
 | BSetOp (o : setop) (q : squant) (l r : setexpr)
 | BNested (q : query)
+| BValues (rows : list vrow)                          (* SetExpr::Values without ROW *)
+| BTable (name : qtok)                                (* SetExpr::Table: TABLE name *)
+with vrow := VRow (l : list xexpr)
 with query :=
-| Query (w : option withc) (body : setexpr) (order_by : list (expr * option bool)) (limit offset : option expr)
+| Query (w : option withc) (body : setexpr) (order_by : list oelem) (limit offset : option xexpr)
 with tref :=                                          (* TableFactor *)
 | TTable (name : qtok) (alias : option qtok)
 | TDerived (q : query) (alias : option qtok)
 | TNested (t : twj) (alias : option qtok)             (* NestedJoin *)
 with twj := Twj (rel : tref) (joins : list join)      (* TableWithJoins *)
 with join := Join (op : jop) (rel : tref)
+with jop := JCross | JOp (k : jkind) (c : jcons)
+with jcons := JOn (x : xexpr) | JUsing (cols : list qtok) | JNatural | JNone
 with withc := With (recursive : bool) (ctes : list cte)
-with cte := Cte (name : qtok) (cols : list qtok) (q : query).
+with cte := Cte (name : qtok) (cols : list qtok) (q : query)
+with item :=
+| IWild                                  (* SelectItem::Wildcard without options *)
+| IExpr (x : xexpr)                      (* SelectItem::UnnamedExpr *)
+| IAlias (x : xexpr) (a : qtok)          (* SelectItem::ExprWithAlias; the alias is its word token *)
+with oelem := OElem (x : xexpr) (asc : option bool)   (* OrderByExpr *)
+(** an expression of the operator core whose subquery atoms stand for [subs]:
+    [( SQ_BASE+i )] = Expr::Subquery, [IN ( SQ_BASE+i )] = Expr::InSubquery, [EX_BASE+i] / [NEX_BASE+i]
+    = Expr::Exists *)
+with xexpr := X (e : expr) (subs : list query).
 
 Definition body (q : query) : setexpr := match q with Query _ b _ _ _ => b end.
 
@@ -105,23 +125,25 @@ Fixpoint sepc (ls : list (list qtok)) : list qtok :=
 Definition alias_toks (a : option qtok) : list qtok :=
   match a with Some w => [QK KAs; w] | None => [] end.
 
-Definition item_toks (i : item) : list qtok :=
-  match i with
-  | IWild => [QE (TOp K_Mul)]
-  | IExpr e => qe (ptoks e)
-  | IAlias e w => qe (ptoks e) ++ [QK KAs; w]
+(** the printed tokens of an expression; [st]: the printed tokens of its subqueries, in order *)
+Definition wrap (n : N) (s : list qtok) : list qtok :=
+  if n <? EX_BASE then s
+  else if n <? NEX_BASE then QK KExists :: QE TLParen :: s ++ [QE TRParen]
+  else QE (TKw KNot) :: QK KExists :: QE TLParen :: s ++ [QE TRParen].
+Fixpoint unfoldl (st : list (list qtok)) (ts : list tok) : list qtok :=
+  match ts with
+  | [] => []
+  | TAtom false n :: r =>
+      if n <? SQ_BASE then QE (TAtom false n) :: unfoldl st r
+      else match st with
+           | s :: st' => wrap n s ++ unfoldl st' r
+           | [] => QE (TAtom false n) :: unfoldl st r
+           end
+  | t :: r => QE t :: unfoldl st r
   end.
 
-Definition order_elem_toks (x : expr * option bool) : list qtok :=
-  qe (ptoks (fst x)) ++
-  match snd x with Some true => [QK KAsc] | Some false => [QK KDesc] | None => [] end.
-
-Definition order_toks (ob : list (expr * option bool)) : list qtok :=
-  match ob with [] => [] | _ => QK KOrder :: QK KBy :: sepc (map order_elem_toks ob) end.
-Definition clause_toks (k : qtok) (x : option expr) : list qtok :=
-  match x with Some e => k :: qe (ptoks e) | None => [] end.
-Definition group_toks (gb : list expr) : list qtok :=
-  match gb with [] => [] | _ => QK KGroup :: QK KBy :: sepc (map (fun e => qe (ptoks e)) gb) end.
+Definition asc_toks (a : option bool) : list qtok :=
+  match a with Some true => [QK KAsc] | Some false => [QK KDesc] | None => [] end.
 Definition dist_toks (b : bool) : list qtok := if b then [QE (TKw KDistinct)] else [].
 
 Definition setop_kw (o : setop) : qtok :=
@@ -131,6 +153,12 @@ Definition quant_toks (q : squant) : list qtok :=
 
 Definition from_toks (l : list (list qtok)) : list qtok :=
   match l with [] => [] | _ => QE (TKw KFrom) :: sepc l end.
+Definition order_toks (l : list (list qtok)) : list qtok :=
+  match l with [] => [] | _ => QK KOrder :: QK KBy :: sepc l end.
+Definition group_toks (l : list (list qtok)) : list qtok :=
+  match l with [] => [] | _ => QK KGroup :: QK KBy :: sepc l end.
+Definition clause_toks (k : qtok) (x : option (list qtok)) : list qtok :=
+  match x with Some ts => k :: ts | None => [] end.
 
 (** a parenthesised column list [(a, b)] *)
 Definition cols_toks (cols : list qtok) : list qtok :=
@@ -151,12 +179,6 @@ Definition jop_pre (o : jop) : list qtok :=
   | JOp k JNatural => QK KNatural :: jkind_toks k
   | JOp k _ => jkind_toks k
   end.
-Definition jop_suf (o : jop) : list qtok :=
-  match o with
-  | JOp _ (JOn e) => QK KOn :: qe (ptoks e)
-  | JOp _ (JUsing cols) => QK KUsing :: cols_toks cols
-  | _ => []
-  end.
 Definition rec_toks (b : bool) : list qtok := if b then [QK KRecursive] else [].
 (** [TableAlias]: [name (a, b)], the column list only when there is one *)
 Definition ccols_toks (cols : list qtok) : list qtok :=
@@ -167,15 +189,21 @@ Fixpoint btoks (b : setexpr) : list qtok :=
   | BSelect dist items from wh gb hv =>
       QK KSelect :: dist_toks dist ++ sepc (map item_toks items) ++
       from_toks (map twj_toks from) ++
-      clause_toks (QK KWhere) wh ++ group_toks gb ++ clause_toks (QK KHaving) hv
+      clause_toks (QK KWhere) (option_map xtoks wh) ++ group_toks (map xtoks gb) ++
+      clause_toks (QK KHaving) (option_map xtoks hv)
   | BSetOp o q l r => btoks l ++ setop_kw o :: quant_toks q ++ btoks r
   | BNested q => QE TLParen :: qtoks q ++ [QE TRParen]
+  | BValues rows => QK KValues :: sepc (map vrow_toks rows)
+  | BTable n => [QK KTable; n]
   end
+with vrow_toks (r : vrow) : list qtok :=
+  match r with VRow l => QE TLParen :: sepc (map xtoks l) ++ [QE TRParen] end
 with qtoks (q : query) : list qtok :=
   match q with
   | Query w b ob lim off =>
       match w with Some x => with_toks x | None => [] end ++
-      btoks b ++ order_toks ob ++ clause_toks (QK KLimit) lim ++ clause_toks (QK KOffset) off
+      btoks b ++ order_toks (map oelem_toks ob) ++ clause_toks (QK KLimit) (option_map xtoks lim) ++
+      clause_toks (QK KOffset) (option_map xtoks off)
   end
 with tref_toks (t : tref) : list qtok :=
   match t with
@@ -187,37 +215,77 @@ with twj_toks (t : twj) : list qtok :=
   match t with Twj r js => tref_toks r ++ concat (map join_toks js) end
 with join_toks (j : join) : list qtok :=
   match j with Join o r => jop_pre o ++ tref_toks r ++ jop_suf o end
+with jop_suf (o : jop) : list qtok :=
+  match o with
+  | JCross => []
+  | JOp _ c => jcons_toks c
+  end
+with jcons_toks (c : jcons) : list qtok :=
+  match c with
+  | JOn x => QK KOn :: xtoks x
+  | JUsing cols => QK KUsing :: cols_toks cols
+  | _ => []
+  end
 with with_toks (w : withc) : list qtok :=
   match w with With rc ctes => QK KWith :: rec_toks rc ++ sepc (map cte_toks ctes) end
 with cte_toks (c : cte) : list qtok :=
   match c with
   | Cte n cols q => n :: ccols_toks cols ++ QK KAs :: QE TLParen :: qtoks q ++ [QE TRParen]
-  end.
+  end
+with item_toks (i : item) : list qtok :=
+  match i with
+  | IWild => [QE (TOp K_Mul)]
+  | IExpr x => xtoks x
+  | IAlias x w => xtoks x ++ [QK KAs; w]
+  end
+with oelem_toks (o : oelem) : list qtok :=
+  match o with OElem x a => xtoks x ++ asc_toks a end
+with xtoks (x : xexpr) : list qtok :=
+  match x with X e subs => unfoldl (map qtoks subs) (ptoks e) end.
 
 Definition wtoks (w : option withc) : list qtok :=
   match w with Some x => with_toks x | None => [] end.
+Definition otoks (x : option xexpr) : option (list qtok) := option_map xtoks x.
 
 (** * Nesting level = the fuel [parse_query] needs: derived tables, parenthesised operands, right
-    operands of set operators, nested joins, common table expressions *)
+    operands of set operators, nested joins, common table expressions, subqueries of expressions *)
 Definition maxl (l : list nat) : nat := fold_right Nat.max O l.
+Definition olevel {A} (f : A -> nat) (x : option A) : nat := match x with Some a => f a | None => O end.
 
 Fixpoint blevel (b : setexpr) : nat :=
   match b with
-  | BSelect _ _ from _ _ _ => S (maxl (map twjlevel from))
+  | BSelect _ items from wh gb hv =>
+      S (Nat.max (maxl (map ilevel items))
+        (Nat.max (maxl (map twjlevel from))
+        (Nat.max (match wh with Some x => xlevel x | None => O end)
+        (Nat.max (maxl (map xlevel gb)) (match hv with Some x => xlevel x | None => O end)))))
   | BSetOp _ _ l r => Nat.max (blevel l) (S (blevel r))
   | BNested q => S (qlevel q)
+  | BValues rows => S (maxl (map vrlevel rows))
+  | BTable _ => 1%nat
   end
+with vrlevel (r : vrow) : nat := match r with VRow l => maxl (map xlevel l) end
 with qlevel (q : query) : nat :=
   match q with
-  | Query w b _ _ _ => Nat.max (match w with Some x => S (wlevel x) | None => O end) (blevel b)
+  | Query w b ob lim off =>
+      Nat.max (match w with Some x => S (wlevel x) | None => O end)
+        (Nat.max (blevel b)
+          (S (Nat.max (maxl (map oelevel ob))
+               (Nat.max (match lim with Some x => xlevel x | None => O end)
+                        (match off with Some x => xlevel x | None => O end)))))
   end
 with tlevel (t : tref) : nat :=
   match t with TTable _ _ => O | TDerived q _ => qlevel q | TNested t' _ => S (twjlevel t') end
 with twjlevel (t : twj) : nat :=
   match t with Twj r js => Nat.max (tlevel r) (maxl (map jlevel js)) end
-with jlevel (j : join) : nat := match j with Join _ r => tlevel r end
+with jlevel (j : join) : nat := match j with Join o r => Nat.max (joplevel o) (tlevel r) end
+with joplevel (o : jop) : nat := match o with JCross => O | JOp _ c => jclevel c end
+with jclevel (c : jcons) : nat := match c with JOn x => xlevel x | _ => O end
 with wlevel (w : withc) : nat := match w with With _ ctes => maxl (map clevel ctes) end
-with clevel (c : cte) : nat := match c with Cte _ _ q => qlevel q end.
+with clevel (c : cte) : nat := match c with Cte _ _ q => qlevel q end
+with ilevel (i : item) : nat := match i with IWild => O | IExpr x => xlevel x | IAlias x _ => xlevel x end
+with oelevel (o : oelem) : nat := match o with OElem x _ => xlevel x end
+with xlevel (x : xexpr) : nat := match x with X _ subs => maxl (map qlevel subs) end.
 
 (** * The dialect *)
 Record qdialect := {
@@ -235,39 +303,129 @@ Record qdialect := {
   hyphen_table : bool;         (* hyphenated table names (BigQuery) *)
   group_by_expr : bool;        (* supports_group_by_expr: GROUP BY () / ROLLUP / CUBE / GROUPING SETS *)
   paren_tables : bool;         (* FROM (t) (Snowflake, Generic) *)
-  group_with : bool            (* GROUP BY .. WITH ROLLUP | CUBE | TOTALS (ClickHouse, Generic) *)
+  group_with : bool;           (* GROUP BY .. WITH ROLLUP | CUBE | TOTALS (ClickHouse, Generic) *)
+  exists_fn : bool;            (* EXISTS not followed by (SELECT | (WITH is a function call (Databricks) *)
+  values_empty : bool          (* VALUES () - a row without values (MySQL) *)
 }.
 
-(** * Expressions: what [Parser::parse_expr] sees of the token stream.  Its view ends at the first
-    token outside the expression alphabet, shown as a word the expression parser gives no binding
-    power ([TType 0]: no such type), or at the first closing parenthesis that has no partner in the
-    view (no construct of the expression grammar consumes one).  If the expression parser consumes the
-    token its view ends with (a keyword used as an identifier or as a type name) the input is outside
-    the fragment. *)
-Fixpoint cutd (k : nat) (l : list qtok) : list tok :=
-  match l with
-  | QE TLParen :: r => TLParen :: cutd (S k) r
-  | QE TRParen :: r => match k with O => [TRParen] | S k' => TRParen :: cutd k' r end
-  | QE t :: r => t :: cutd k r
-  | [] => []
-  | _ :: _ => [TType 0]
+(** * Expressions: what [Parser::parse_expr] sees of the token stream.
+    Its view ([fold]) ends
+    - at the first token outside the expression alphabet, shown as a word the expression parser gives
+      no binding power ([TType 0]: no such type);
+    - outside parentheses: at a comma, at a closing parenthesis, at a FROM that does not follow
+      DISTINCT (no construct of the expression grammar consumes one of these there).
+    A parenthesised query [( SELECT .. )] / [( WITH .. )] - read by [parse_query], one level down - is
+    shown as [( a )] with the atom [a = SQ_BASE + i]: Expr::Subquery in operand position, Expr::InSubquery
+    after IN; [EXISTS ( query )] / [NOT EXISTS ( query )] as the atoms [EX_BASE + i] / [NEX_BASE + i].
+    [x = ANY ( SELECT .. )] is [ANY ( a )]: the parenthesis of ANY is the one of the subquery.
+    UNNEST before [( SELECT] and ANY / ALL / SOME before [( ( SELECT] end the view.
+    If the expression parser consumes the token its view ends with (a keyword used as an identifier or
+    as a type name) the input is outside the fragment. *)
+Definition is_qstart (l : list qtok) : bool :=
+  match l with QK KSelect :: _ | QK KWith :: _ => true | _ => false end.
+(** after the keyword [w]: [UNNEST ( SELECT] is not a subquery (UNNEST takes an expression); for
+    [ANY ( ( SELECT ..] the parser and the printer drop one pair of parentheses when the operand is just
+    the subquery: two token forms of one tree, outside the fragment *)
+Definition sub_unsafe (w : kwd) (r : list qtok) : bool :=
+  match w, r with
+  | KUnnest, QE TLParen :: r1 => is_qstart r1
+  | KAny, QE TLParen :: QE TLParen :: r2 | KAll, QE TLParen :: QE TLParen :: r2
+  | KSome, QE TLParen :: QE TLParen :: r2 => is_qstart r2
+  | _, _ => false
   end.
-Fixpoint has_stopd (k : nat) (l : list qtok) : bool :=
-  match l with
-  | QE TLParen :: r => has_stopd (S k) r
-  | QE TRParen :: r => match k with O => true | S k' => has_stopd k' r end
-  | QE _ :: r => has_stopd k r
-  | [] => false
-  | _ :: _ => true
-  end.
-Definition cut (l : list qtok) : list tok := cutd O l.
-Definition has_stop (l : list qtok) : bool := has_stopd O l.
 
-Definition pexpr (d : dialect) (l : list qtok) : res (expr * list qtok) :=
-  let ts := cut l in
-  bind (parse_expr d ts) (fun '(e, r) =>
-    if has_stop l && Nat.eqb (length r) 0 then OutOfFragment
-    else Ok (e, skipn (length ts - length r) l)).
+(** the view: each token with the input that remains after it *)
+Record folded := {
+  fv : list (tok * list qtok);
+  fsubs : list query;          (* the subqueries behind the atoms of the view, in order *)
+  fstop : bool;                (* the view ends before the input does *)
+  ffuel : bool                 (* out of fuel *)
+}.
+Definition fnil : folded := {| fv := []; fsubs := []; fstop := false; ffuel := false |}.
+Definition fstopv (t : tok) (r : list qtok) : folded :=
+  {| fv := [(t, r)]; fsubs := []; fstop := true; ffuel := false |}.
+Definition fcons (t : tok) (r : list qtok) (x : folded) : folded :=
+  {| fv := (t, r) :: fv x; fsubs := fsubs x; fstop := fstop x; ffuel := ffuel x |}.
+Definition fsub (q : query) (x : folded) : folded :=
+  {| fv := fv x; fsubs := q :: fsubs x; fstop := fstop x; ffuel := ffuel x |}.
+
+Section Fold.
+  (** [parse_query], one level down *)
+  Variable recq : list qtok -> res (query * list qtok).
+  (** EXISTS is a function name unless [(SELECT] / [(WITH] follows (Databricks) *)
+  Variable exfn : bool.
+
+  (** [EXISTS ( query )] with [r] = the input after the opening parenthesis: the query and the input
+      after the closing parenthesis *)
+  Definition exists_group (r : list qtok) : option (query * list qtok) :=
+    if exfn && negb (is_qstart r) then None
+    else match recq r with
+         | Ok (q, QE TRParen :: r') => Some (q, r')
+         | _ => None
+         end.
+
+  Fixpoint fold (g : nat) (k : nat) (i : nat) (l : list qtok) : folded :=
+    match g with
+    | O => {| fv := []; fsubs := []; fstop := true; ffuel := true |}
+    | S g' =>
+        match l with
+        | [] => fnil
+        | QE TLParen :: r =>
+            if is_qstart r then
+              match recq r with
+              | Ok (q, QE TRParen :: r') =>
+                  fsub q (fcons TLParen r (fcons (TAtom false (SQ_BASE + N.of_nat i)) (QE TRParen :: r')
+                    (fcons TRParen r' (fold g' k (S i) r'))))
+              | _ => fcons TLParen r (fold g' (S k) i r)      (* the view ends at SELECT / WITH *)
+              end
+            else fcons TLParen r (fold g' (S k) i r)
+        | QE TRParen :: r =>
+            match k with O => fstopv TRParen r | S k' => fcons TRParen r (fold g' k' i r) end
+        | QE TComma :: r =>
+            match k with O => fstopv TComma r | S _ => fcons TComma r (fold g' k i r) end
+        | QE (TKw KDistinct) :: QE (TKw KFrom) :: r =>
+            fcons (TKw KDistinct) (QE (TKw KFrom) :: r) (fcons (TKw KFrom) r (fold g' k i r))
+        | QE (TKw KFrom) :: r =>
+            match k with O => fstopv (TKw KFrom) r | S _ => fcons (TKw KFrom) r (fold g' k i r) end
+        | QE (TKw KNot) :: QK KExists :: QE TLParen :: r1 =>
+            match exists_group r1 with
+            | Some (q, r') => fsub q (fcons (TAtom false (NEX_BASE + N.of_nat i)) r' (fold g' k (S i) r'))
+            | None => fcons (TKw KNot) (QK KExists :: QE TLParen :: r1) (fstopv (TType 0) (QE TLParen :: r1))
+            end
+        | QE (TKw w) :: r =>
+            if sub_unsafe w r then fcons (TKw w) r (fstopv TOther r)     (* outside the fragment *)
+            else fcons (TKw w) r (fold g' k i r)
+        | QK KExists :: QE TLParen :: r1 =>
+            match exists_group r1 with
+            | Some (q, r') => fsub q (fcons (TAtom false (EX_BASE + N.of_nat i)) r' (fold g' k (S i) r'))
+            | None => fstopv (TType 0) (QE TLParen :: r1)
+            end
+        | QE (TAtom false n) :: r =>
+            if n <? SQ_BASE then fcons (TAtom false n) r (fold g' k i r) else fstopv TOther r
+        | QE t :: r => fcons t r (fold g' k i r)
+        | _ :: r => fstopv (TType 0) r
+        end
+    end.
+
+  (** the input that remains after [c] tokens of the view *)
+  Definition rest_at (c : nat) (v : list (tok * list qtok)) (l : list qtok) : list qtok :=
+    match c with
+    | O => l
+    | S c' => match nth_error v c' with Some (_, r) => r | None => [] end
+    end.
+  Definition is_big (t : tok) : bool :=
+    match t with TAtom false n => negb (n <? SQ_BASE) | _ => false end.
+  Definition nsub (ts : list tok) : nat := length (filter is_big ts).
+
+  Definition pexpr (d : dialect) (l : list qtok) : res (xexpr * list qtok) :=
+    let x := fold (S (length l)) O O l in
+    if ffuel x then OutOfFuel else
+    let ts := map fst (fv x) in
+    bind (parse_expr d ts) (fun '(e, r) =>
+      if fstop x && Nat.eqb (length r) 0 then OutOfFragment
+      else let c := (length ts - length r)%nat in
+           Ok (X e (firstn (nsub (firstn c ts)) (fsubs x)), rest_at c (fv x) l)).
+End Fold.
 
 (** * [parse_comma_separated]; [trail = Some reserved] while [options.trailing_commas] is on *)
 Definition comma_end (reserved : list qtok) (ts : list qtok) : bool :=
@@ -376,8 +534,8 @@ Section Level.
 
   (** [parse_expr]; with trailing commas on, an expression list ending in [, )] is not covered by
       the expression model *)
-  Definition pex (ts : list qtok) : res (expr * list qtok) :=
-    if trailing d && comma_rparen ts then OutOfFragment else pexpr (base d) ts.
+  Definition pex (ts : list qtok) : res (xexpr * list qtok) :=
+    if trailing d && comma_rparen ts then OutOfFragment else pexpr recq (exists_fn d) (base d) ts.
 
   (** [parse_select_item]: [parse_wildcard_expr], then the wildcard options or an optional alias *)
   Definition parse_item_expr (ts : list qtok) : res (item * list qtok) :=
@@ -435,9 +593,10 @@ Section Level.
     | Twj (TNested _ _) [] => true
     | _ => false
     end.
-  (** a parenthesised join whose first table is named SELECT or WITH: the parser gets there by
+  (** a parenthesised join whose first table is named SELECT, WITH, VALUES or TABLE: the parser gets there by
       backtracking from a failed attempt to read a query; outside the fragment *)
-  Definition starter (w : qtok) : bool := qtok_eqb w (QK KSelect) || qtok_eqb w (QK KWith).
+  Definition starter (w : qtok) : bool :=
+    qtok_eqb w (QK KSelect) || qtok_eqb w (QK KWith) || qtok_eqb w (QK KValues) || qtok_eqb w (QK KTable).
   Definition first_ok (t : tref) : bool :=
     match t with TTable n _ => negb (starter n) | _ => true end.
   Definition first_of (t : twj) : tref := match t with Twj r _ => r end.
@@ -470,6 +629,8 @@ Section Level.
               else Err)
         | x => x
         end
+    | QK KTable :: r =>                     (* TABLE ( expr ): a table function; nothing else *)
+        match r with QE TLParen :: _ => OutOfFragment | _ => Err end
     | w :: r =>
         if is_word w then
           if unnest_table d && qtok_eqb w (QE (TKw KUnnest)) then OutOfFragment
@@ -551,26 +712,26 @@ Section Level.
     bind (parse_tref ts) (fun '(t, r) =>
       bind (join_loop (S (length r)) r) (fun '(js, r') => Ok (Twj t js, r'))).
 
-  Definition opt_clause (k : qtok) (ts : list qtok) : res (option expr * list qtok) :=
+  Definition opt_clause (k : qtok) (ts : list qtok) : res (option xexpr * list qtok) :=
     match ts with
     | t :: r => if qtok_eqb t k then bind (pex r) (fun '(e, r') => Ok (Some e, r')) else Ok (None, ts)
     | [] => Ok (None, ts)
     end.
 
   (** [parse_group_by_expr] *)
-  Definition parse_group_elem (ts : list qtok) : res (expr * list qtok) :=
+  Definition parse_group_elem (ts : list qtok) : res (xexpr * list qtok) :=
     match ts with
     | QE TLParen :: QE TRParen :: _ => if group_by_expr d then OutOfFragment else pex ts
     | _ => pex ts
     end.
 
   (** [parse_order_by_expr] *)
-  Definition parse_order_elem (ts : list qtok) : res ((expr * option bool) * list qtok) :=
+  Definition parse_order_elem (ts : list qtok) : res (oelem * list qtok) :=
     bind (pex ts) (fun '(e, r) =>
       match r with
-      | QK KAsc :: r' => Ok ((e, Some true), r')
-      | QK KDesc :: r' => Ok ((e, Some false), r')
-      | _ => Ok ((e, None), r)
+      | QK KAsc :: r' => Ok (OElem e (Some true), r')
+      | QK KDesc :: r' => Ok (OElem e (Some false), r')
+      | _ => Ok (OElem e None, r)
       end).
 
   (** FROM <table>, ... *)
@@ -579,7 +740,7 @@ Section Level.
     if b then comma_list twj_step trail_all (S (length r)) r else Ok ([], ts).
 
   (** [parse_optional_group_by] *)
-  Definition parse_group_by (ts : list qtok) : res (list expr * list qtok) :=
+  Definition parse_group_by (ts : list qtok) : res (list xexpr * list qtok) :=
     let '(b, r) := opt_tok2 (QK KGroup) (QK KBy) ts in
     if b then
       (if fst (opt_tok (QE (TKw KAll)) r) then OutOfFragment            (* GROUP BY ALL *)
@@ -589,7 +750,7 @@ Section Level.
     else Ok ([], ts).
 
   (** [parse_optional_order_by] *)
-  Definition parse_order_by (ts : list qtok) : res (list (expr * option bool) * list qtok) :=
+  Definition parse_order_by (ts : list qtok) : res (list oelem * list qtok) :=
     let '(o, r) := opt_tok2 (QK KOrder) (QK KBy) ts in
     if o then comma_list parse_order_elem trail_all (S (length r)) r else Ok ([], ts).
 
@@ -611,9 +772,36 @@ Section Level.
     bind (opt_clause (QK KHaving) ts6) (fun '(hv, ts7) =>
       Ok (BSelect dist items from wh gb hv, ts7)))))).
 
+  (** [parse_values] (ROW is outside the alphabet): one row *)
+  Definition parse_vrow (ts : list qtok) : res (vrow * list qtok) :=
+    match ts with
+    | QE TLParen :: r =>
+        match r with
+        | QE TRParen :: r' => if values_empty d then Ok (VRow [], r') else Err
+        | _ =>
+            bind (comma_list pex trail_all (S (length r)) r) (fun '(l, r1) =>
+              match r1 with
+              | QE TRParen :: r2 => Ok (VRow l, r2)
+              | _ => Err
+              end)
+        end
+    | _ => Err
+    end.
+
   (** the operand of [parse_query_body] *)
   Definition parse_operand (ts : list qtok) : res (setexpr * list qtok) :=
     match ts with
+    | QK KValues :: r =>
+        bind (comma_list parse_vrow trail_all (S (length r)) r) (fun '(rows, r') => Ok (BValues rows, r'))
+    | QK KTable :: r =>                                   (* parse_as_table; schema.name is outside the alphabet *)
+        match r with
+        | w :: r' => if is_word w then Ok (BTable w, r')
+                     else match w with
+                          | QOther | QE TOther => OutOfFragment
+                          | _ => Err
+                          end
+        | [] => Err
+        end
     | QK KSelect :: r => parse_select r
     | QE TLParen :: r =>
         bind (recq r) (fun '(q, r1) =>
@@ -644,8 +832,8 @@ Section Level.
     bind (parse_operand ts) (fun '(e, r) => bloop (S (length r)) p e r).
 
   (** one turn of the LIMIT / OFFSET loop of [parse_query] *)
-  Definition limit_iter (st : option expr * option expr) (ts : list qtok)
-    : res ((option expr * option expr) * list qtok) :=
+  Definition limit_iter (st : option xexpr * option xexpr) (ts : list qtok)
+    : res ((option xexpr * option xexpr) * list qtok) :=
     let '(lim, off) := st in
     bind (match lim with
           | None =>
@@ -771,31 +959,9 @@ Definition opt_eqb {A} (f : A -> A -> bool) (a b : option A) : bool :=
   | _, _ => false
   end.
 
-Definition item_eqb (a b : item) : bool :=
-  match a, b with
-  | IWild, IWild => true
-  | IExpr e, IExpr e' => expr_eqb e e'
-  | IAlias e w, IAlias e' w' => expr_eqb e e' && qtok_eqb w w'
-  | _, _ => false
-  end.
-Definition order_eqb (a b : expr * option bool) : bool :=
-  expr_eqb (fst a) (fst b) && opt_eqb Bool.eqb (snd a) (snd b).
 Definition jkind_eqb (a b : jkind) : bool :=
   match a, b with
   | JInner, JInner | JLeft, JLeft | JRight, JRight | JFull, JFull => true
-  | _, _ => false
-  end.
-Definition jcons_eqb (a b : jcons) : bool :=
-  match a, b with
-  | JOn e, JOn e' => expr_eqb e e'
-  | JUsing c, JUsing c' => list_eqb qtok_eqb c c'
-  | JNatural, JNatural | JNone, JNone => true
-  | _, _ => false
-  end.
-Definition jop_eqb (a b : jop) : bool :=
-  match a, b with
-  | JCross, JCross => true
-  | JOp k c, JOp k' c' => jkind_eqb k k' && jcons_eqb c c'
   | _, _ => false
   end.
 
@@ -803,12 +969,18 @@ Fixpoint setexpr_eqb (a b : setexpr) {struct a} : bool :=
   match a, b with
   | BSelect dist items from wh gb hv, BSelect dist' items' from' wh' gb' hv' =>
       Bool.eqb dist dist' && list_eqb item_eqb items items' && list_eqb twj_eqb from from' &&
-      opt_eqb expr_eqb wh wh' && list_eqb expr_eqb gb gb' && opt_eqb expr_eqb hv hv'
+      match wh, wh' with None, None => true | Some x, Some x' => xexpr_eqb x x' | _, _ => false end &&
+      list_eqb xexpr_eqb gb gb' &&
+      match hv, hv' with None, None => true | Some x, Some x' => xexpr_eqb x x' | _, _ => false end
   | BSetOp o q l r, BSetOp o' q' l' r' =>
       setop_eqb o o' && squant_eqb q q' && setexpr_eqb l l' && setexpr_eqb r r'
   | BNested q, BNested q' => query_eqb q q'
+  | BValues rows, BValues rows' => list_eqb vrow_eqb rows rows'
+  | BTable n, BTable n' => qtok_eqb n n'
   | _, _ => false
   end
+with vrow_eqb (a b : vrow) {struct a} : bool :=
+  match a, b with VRow l, VRow l' => list_eqb xexpr_eqb l l' end
 with query_eqb (q q' : query) {struct q} : bool :=
   match q, q' with
   | Query w x ob lim off, Query w' x' ob' lim' off' =>
@@ -817,7 +989,9 @@ with query_eqb (q q' : query) {struct q} : bool :=
       | Some y, Some y' => withc_eqb y y'
       | _, _ => false
       end &&
-      setexpr_eqb x x' && list_eqb order_eqb ob ob' && opt_eqb expr_eqb lim lim' && opt_eqb expr_eqb off off'
+      setexpr_eqb x x' && list_eqb oelem_eqb ob ob' &&
+      match lim, lim' with None, None => true | Some y, Some y' => xexpr_eqb y y' | _, _ => false end &&
+      match off, off' with None, None => true | Some y, Some y' => xexpr_eqb y y' | _, _ => false end
   end
 with tref_eqb (t t' : tref) {struct t} : bool :=
   match t, t' with
@@ -830,12 +1004,36 @@ with twj_eqb (t t' : twj) {struct t} : bool :=
   match t, t' with Twj r js, Twj r' js' => tref_eqb r r' && list_eqb join_eqb js js' end
 with join_eqb (j j' : join) {struct j} : bool :=
   match j, j' with Join o r, Join o' r' => jop_eqb o o' && tref_eqb r r' end
+with jop_eqb (a b : jop) {struct a} : bool :=
+  match a, b with
+  | JCross, JCross => true
+  | JOp k c, JOp k' c' => jkind_eqb k k' && jcons_eqb c c'
+  | _, _ => false
+  end
+with jcons_eqb (a b : jcons) {struct a} : bool :=
+  match a, b with
+  | JOn x, JOn x' => xexpr_eqb x x'
+  | JUsing c, JUsing c' => list_eqb qtok_eqb c c'
+  | JNatural, JNatural | JNone, JNone => true
+  | _, _ => false
+  end
 with withc_eqb (w w' : withc) {struct w} : bool :=
   match w, w' with With rc cs, With rc' cs' => Bool.eqb rc rc' && list_eqb cte_eqb cs cs' end
 with cte_eqb (c c' : cte) {struct c} : bool :=
   match c, c' with
   | Cte n cols q, Cte n' cols' q' => qtok_eqb n n' && list_eqb qtok_eqb cols cols' && query_eqb q q'
-  end.
+  end
+with item_eqb (a b : item) {struct a} : bool :=
+  match a, b with
+  | IWild, IWild => true
+  | IExpr x, IExpr x' => xexpr_eqb x x'
+  | IAlias x w, IAlias x' w' => xexpr_eqb x x' && qtok_eqb w w'
+  | _, _ => false
+  end
+with oelem_eqb (a b : oelem) {struct a} : bool :=
+  match a, b with OElem x s, OElem x' s' => xexpr_eqb x x' && opt_eqb Bool.eqb s s' end
+with xexpr_eqb (a b : xexpr) {struct a} : bool :=
+  match a, b with X e s, X e' s' => expr_eqb e e' && list_eqb query_eqb s s' end.
 
 Fixpoint qtoks_eqb (a b : list qtok) : bool :=
   match a, b with
@@ -845,25 +1043,25 @@ Fixpoint qtoks_eqb (a b : list qtok) : bool :=
   end.
 
 (** * Canonical spelling of the expressions inside a query ([PrinterCore.norm]) *)
-Definition item_norm (i : item) : item :=
-  match i with IWild => IWild | IExpr e => IExpr (norm e) | IAlias e w => IAlias (norm e) w end.
-Definition order_norm (x : expr * option bool) := (norm (fst x), snd x).
-Definition jop_norm (o : jop) : jop :=
-  match o with JOp k (JOn e) => JOp k (JOn (norm e)) | _ => o end.
-
 Fixpoint bnorm (b : setexpr) : setexpr :=
   match b with
   | BSelect dist items from wh gb hv =>
       BSelect dist (map item_norm items) (map twj_norm from)
-        (option_map norm wh) (map norm gb) (option_map norm hv)
+        (match wh with Some x => Some (xnorm x) | None => None end) (map xnorm gb)
+        (match hv with Some x => Some (xnorm x) | None => None end)
   | BSetOp o q l r => BSetOp o q (bnorm l) (bnorm r)
   | BNested q => BNested (qnorm q)
+  | BValues rows => BValues (map vrow_norm rows)
+  | BTable n => BTable n
   end
+with vrow_norm (r : vrow) : vrow := match r with VRow l => VRow (map xnorm l) end
 with qnorm (q : query) : query :=
   match q with
   | Query w b ob lim off =>
       Query (match w with Some x => Some (wnorm x) | None => None end)
-            (bnorm b) (map order_norm ob) (option_map norm lim) (option_map norm off)
+            (bnorm b) (map oelem_norm ob)
+            (match lim with Some x => Some (xnorm x) | None => None end)
+            (match off with Some x => Some (xnorm x) | None => None end)
   end
 with tref_norm (t : tref) : tref :=
   match t with
@@ -875,10 +1073,20 @@ with twj_norm (t : twj) : twj :=
   match t with Twj r js => Twj (tref_norm r) (map join_norm js) end
 with join_norm (j : join) : join :=
   match j with Join o r => Join (jop_norm o) (tref_norm r) end
+with jop_norm (o : jop) : jop :=
+  match o with JCross => JCross | JOp k c => JOp k (jcons_norm c) end
+with jcons_norm (c : jcons) : jcons :=
+  match c with JOn x => JOn (xnorm x) | JUsing cols => JUsing cols | JNatural => JNatural | JNone => JNone end
 with wnorm (w : withc) : withc :=
   match w with With rc cs => With rc (map cte_norm cs) end
 with cte_norm (c : cte) : cte :=
-  match c with Cte n cols q => Cte n cols (qnorm q) end.
+  match c with Cte n cols q => Cte n cols (qnorm q) end
+with item_norm (i : item) : item :=
+  match i with IWild => IWild | IExpr x => IExpr (xnorm x) | IAlias x w => IAlias (xnorm x) w end
+with oelem_norm (o : oelem) : oelem :=
+  match o with OElem x a => OElem (xnorm x) a end
+with xnorm (x : xexpr) : xexpr :=
+  match x with X e subs => X (norm e) (map qnorm subs) end.
 
 (** * Evaluation of one correspondence case inside the kernel (lib/props/c01query.py).
     [ts]: the crate's tokens of the input; [i]: what [Parser::parse_query] returned (tree and number of
